@@ -190,7 +190,7 @@ func runC04(line string) string {
 				default:
 				}
 				bg.send(req, nil)
-				v, err := bg.recv(4 * time.Second)
+				v, err := bg.recv(time.Duration(float64(4*time.Second) * loadFactor))
 				if err != nil {
 					bgBad = " BG-TIMEOUT"
 					return
@@ -258,7 +258,7 @@ func runC04(line string) string {
 				afterFailover := before
 				for try := 0; try < 40 && !ok; try++ {
 					sc.send(bulkArr([]byte("exists"), pk).bytes(), nil)
-					rp, err := sc.recv(4 * time.Second)
+					rp, err := sc.recv(time.Duration(float64(4*time.Second) * loadFactor))
 					if err == nil && rp.t != '-' {
 						ok = true
 						break
@@ -285,9 +285,6 @@ func runC04(line string) string {
 			cl.mu.Lock()
 			cl.down = fs[0] == "cd"
 			cl.mu.Unlock()
-			if fs[0] == "cu" {
-				settle(40 * time.Millisecond) // the refresh the CLUSTERDOWN reply triggered
-			}
 		case "w":
 			before := sp.counter("upstream.slots_refresh.success_total")
 			for t := 0; t < 100 && sp.counter("upstream.slots_refresh.success_total") == before; t++ {
@@ -310,7 +307,7 @@ func runC04(line string) string {
 			cl.mu.Unlock()
 			sc.send(buf, nil)
 			for j := 0; j < cnt; j++ {
-				r, err := sc.recv(4 * time.Second)
+				r, err := sc.recv(time.Duration(float64(4*time.Second) * loadFactor))
 				if err != nil {
 					replies = append(replies, "TIMEOUT")
 					break
@@ -347,7 +344,7 @@ func runC04(line string) string {
 			cl.dropNextExec = fs[0] == "qx"
 			cl.mu.Unlock()
 			sc.send(v.bytes(), nil)
-			r, err := sc.recv(4 * time.Second)
+			r, err := sc.recv(time.Duration(float64(4*time.Second) * loadFactor))
 			cl.mu.Lock()
 			cl.dropNextExec = false
 			if cl.onAsk != nil {
@@ -392,7 +389,7 @@ func runC04(line string) string {
 					}
 					for try := 0; try < 40; try++ {
 						sc.send(bulkArr([]byte("exists"), pk).bytes(), nil)
-						rp, perr := sc.recv(4 * time.Second)
+						rp, perr := sc.recv(time.Duration(float64(4*time.Second) * loadFactor))
 						if perr == nil && rp.t != '-' {
 							break
 						}
